@@ -145,7 +145,7 @@ func genIsolationPlan(seed uint64, tier string) *Plan {
 		case 4:
 			if g.chance(40) {
 				// a NAT keep-alive: nothing but CRLF (it ends before any header section: discarded)
-				op.Data = []byte(g.pick("\r\n\r\n", "\r\n", "\n", " \r\n"))
+				op.Data = []byte(g.pick("\r\n\r\n", "\r\n", "\n", " \r\n", "")) // "": a datagram without payload
 				op.S["shape"] = "cut-in-headers"
 				op.S["keepalive"] = "1"
 			}
@@ -193,6 +193,9 @@ func isolationDatagram(g *gen, id string, size int) ([]byte, int) {
 		copy(body[size/2:], fake)
 	}
 	b.Body = body
+	if g.chance(8) {
+		b.CLZeros = g.rng(1, 2) // 1*DIGIT: leading zeros are legal and the number stays decimal
+	}
 	data := b.Bytes()
 	return data, len(data) - len(body)
 }
